@@ -182,12 +182,22 @@ type Operation struct {
 	handleFunc           func(*Message)
 	handler              chan *Message
 	resuscitationEnabled *abool.AtomicBool
+
+	handlerLock   sync.Mutex
+	handlerClosed bool
 }
 
 func (op *Operation) handle(m *Message) {
 	if op.handleFunc != nil {
 		op.handleFunc(m)
 	} else {
+		// The operation may be canceled while a message for it is being dispatched.
+		op.handlerLock.Lock()
+		defer op.handlerLock.Unlock()
+		if op.handlerClosed {
+			return
+		}
+
 		select {
 		case op.handler <- m:
 		default:
@@ -205,6 +215,10 @@ func (op *Operation) Cancel() {
 		return
 	}
 	delete(op.client.operations, op.ID)
+
+	op.handlerLock.Lock()
+	defer op.handlerLock.Unlock()
+	op.handlerClosed = true
 	close(op.handler)
 }
 
